@@ -125,6 +125,11 @@ def jobs(tier, seed):
         # no gates at all: a step() that makes no request returns without yielding anything
         js.append(dict(name="c16_" + name, scen=dict(scen), cfg=dict(lazy=True, cache=True, gates=[]),
                        budget=0, max_exec=10))
+        # value shapes on the wire (mc/vshape.py): set_data values that are falsy / dictionaries
+        if not any(ch.isdigit() for s_ in scen["sims"] for ch in s_["sid"]):
+            for shape, cache in (("num", True), ("dict", False)):
+                js.append(dict(name="c16_" + name, scen=scen,
+                               cfg=dict(lazy=True, cache=cache, vshape=shape), budget=0, max_exec=1500))
         if "persistent_same_attr" in name:
             for cfg in (dict(lazy=True, cache=False), dict(lazy=False, cache=True)):
                 js.append(dict(name="c16_" + name, scen=scen, cfg=cfg, budget=1, max_exec=3000))
